@@ -49,120 +49,27 @@ def run(ctx, chk):
     cb_blocks = {I, H, CI, FZ}
     returns = [i for i, b in enumerate(g.blocks) if b["t"]["t"] == "return"]
 
-    R2 = chk.rule("R-PROTO-2", "the value each callback returns is moved into Action::consume; for initialize/header/instruction the "
-                  "result goes through `?` (Try::branch) and from its Break edge no callback is reachable before return; "
-                  "finalize's consume result is the function's return value")
+    R2 = chk.rule("R-PROTO-2", "Parser::parse evaluated against scripted consumers (every callback position answering continue / stop / "
+                  "error), header results and instruction streams (none, two instructions, a parse error at the first or second): the "
+                  "callbacks made and the result are exactly the protocol's - initialize, header, one call per instruction in order, "
+                  "finalize only after the stream completed; stop -> ConsumerStopRequested, error -> ConsumerError(the consumer's value), "
+                  "a parse error is returned as is; nothing is called after the parse ended; each instruction reaches the type tracker "
+                  "before the next one is parsed")
+    from . import headerx
+    np_ = 0
+    for inst, pb, sample in headerx.parse_problems(ctx):
+        np_ += 1
+        chk.check(R2, pb is None, inst, "%s: %s" % (inst, pb), W, key="C14:script:" + inst, sample=sample if "all callbacks continue" in inst else None)
+    chk.floor(R2, "scripts", np_, 15)
 
-    def flows(src, dst_arg):
-        """local src is (transitively moved into) the local used as argument dst_arg"""
-        if src == dst_arg:
-            return True
-        mv = {}
-        for b in g.blocks:
-            for s in b["s"]:
-                if s["f"] == "mv":
-                    mv.setdefault(s["src"], set()).add(s["d"])
-        seen, st = set(), [src]
-        while st:
-            x = st.pop()
-            if x == dst_arg:
-                return True
-            if x in seen:
-                continue
-            seen.add(x)
-            st += list(mv.get(x, ()))
-        return False
-    for name, blk in (("initialize", I), ("consume_header", H), ("consume_instruction", CI), ("finalize", FZ)):
-        t = g.blocks[blk]["t"]
-        nxt = t["to"][0] if t["to"] else None
-        inst = "Consumer::%s->Action::consume" % name
-        ok = False
-        why = "the callback's result is not passed to Action::consume"
-        if nxt is not None:
-            # skip pure goto blocks
-            hops = 0
-            while g.blocks[nxt]["t"]["t"] in ("goto", "drop") and hops < 4:
-                nxt = g.blocks[nxt]["t"]["to"][0]
-                hops += 1
-            t2 = g.blocks[nxt]["t"]
-            if t2["t"] == "call" and t2.get("rn") == "consume" and (t2.get("rs") or "").endswith("parser::Action") \
-                    and t2["args"] and isinstance(t2["args"][0], int) and isinstance(t["dest"], int) and flows(t["dest"], t2["args"][0]):
-                if name == "finalize":
-                    ok = t2["dest"] == 0
-                    why = "finalize's result is not returned as the result of parse"
-                    # and from there straight to return without callbacks
-                    after = g.reachable(t2["to"][0]) if t2["to"] else set()
-                    ok = ok and not (after & cb_blocks)
-                else:
-                    n3 = t2["to"][0]
-                    t3 = g.blocks[n3]["t"]
-                    if t3["t"] == "call" and t3.get("rn") == "branch" and isinstance(t3["args"][0], int) and flows(t2["dest"], t3["args"][0]):
-                        sw = g.blocks[t3["to"][0]]["t"]
-                        if sw["t"] == "switch":
-                            targets = [x[1] for x in sw["vals"]]
-                            brk = [x for x in targets if g.blocks[x]["t"]["t"] == "call" and g.blocks[x]["t"].get("rn") == "from_residual"]
-                            if len(brk) == 1:
-                                after = g.reachable(brk[0])
-                                ok = not (after & cb_blocks) and any(r in after for r in returns) and PI not in after
-                                why = "a callback or the parse loop is reachable after the consumer answered stop/error"
-                            else:
-                                why = "no unique Break edge after `?`"
-                    else:
-                        why = "Action::consume's result does not go through `?`"
-        chk.check(R2, ok, inst, why, where(t["span"]), key="C14:flow:" + name)
-
-    R3 = chk.rule("R-PROTO-3", "order: initialize dominates parse_header dominates consume_header dominates the instruction loop; in "
-                  "the loop parse_inst dominates track dominates consume_instruction; finalize is reachable only through the edge taken "
-                  "when parse_inst's Err is State::Complete; every other Err of parse_inst/parse_header returns without a callback")
+    R3 = chk.rule("R-PROTO-3", "order on every path of the control-flow graph (MIR dominators), for streams of any length: initialize dominates "
+                  "parse_header dominates consume_header dominates the instruction loop; in the loop parse_inst dominates track dominates "
+                  "consume_instruction, which leads back to parse_inst; parse_inst dominates finalize")
     chain = [("initialize", I), ("parse_header", PH), ("consume_header", H), ("parse_inst", PI), ("track", T), ("consume_instruction", CI)]
     for (an, a), (bn, b) in zip(chain, chain[1:]):
         chk.check(R3, g.dominates(a, b), "%s dominates %s" % (an, bn), "%s can be reached without passing %s" % (bn, an), W)
     chk.check(R3, g.dominates(PI, FZ), "parse_inst dominates finalize", "finalize reachable without parse_inst", W)
     chk.check(R3, PI in g.reachable(g.blocks[CI]["t"]["to"][0]), "loop", "consume_instruction is not followed by the next parse_inst", W)
-    # the Complete edge
-    state_adt = [a for p, a in mir.adts.items() if p.endswith("parser::State")]
-    complete = None
-    if state_adt:
-        for v in state_adt[0]["variants"]:
-            if v["name"] == "Complete":
-                complete = int(v["discr"])
-    edge_ok = False
-    why = "no switch on the discriminant of parser::State selects finalize"
-    discr_of = {}
-    for i, b in enumerate(g.blocks):
-        for s in b["s"]:
-            if s["f"] == "discr":
-                discr_of[(i, s["d"])] = s["ty"]
-    for i, b in enumerate(g.blocks):
-        t = b["t"]
-        if t["t"] == "switch" and isinstance(t["discr"], int) and discr_of.get((i, t["discr"]), "").endswith("parser::State"):
-            for val, tgt in t["vals"]:
-                if val == complete and g.dominates(tgt, FZ) and g.pred[tgt] == [i]:
-                    # all other targets must reach return without callbacks
-                    others = [x[1] for x in t["vals"] if x[1] != tgt] + [t["otherwise"]]
-                    bad = [o for o in others if g.reachable(o) & (cb_blocks | {PI})]
-                    edge_ok = not bad
-                    why = "another error of parse_inst also leads to a callback or continues the loop" if bad else ""
-    chk.check(R3, edge_ok and complete is not None, "finalize only on State::Complete", why, W, key="C14:complete-edge")
-    # Ok edge of parse_inst leads to track/consume_instruction, Err edges never do
-    tpi = g.blocks[PI]["t"]
-    sw = g.blocks[tpi["to"][0]]["t"]
-    ok_edge = False
-    if sw["t"] == "switch" and isinstance(sw["discr"], int) and discr_of.get((tpi["to"][0], sw["discr"]), "").endswith("result::Result"):
-        tg = dict((v, t_) for v, t_ in sw["vals"])
-        okb, errb = tg.get(0), tg.get(1, sw["otherwise"])
-        ok_edge = okb is not None and g.dominates(okb, CI) and g.dominates(okb, T) and CI not in g.reachable(errb, avoid={PI}) and T not in g.reachable(errb, avoid={PI})
-    chk.check(R3, ok_edge, "only Ok(inst) is delivered", "consume_instruction/track reachable from the Err edge of parse_inst", W)
-    # parse_header: Err edge returns without callbacks
-    tph = g.blocks[PH]["t"]
-    n2 = g.blocks[tph["to"][0]]["t"]
-    ph_ok = False
-    if n2["t"] == "call" and n2.get("rn") == "branch":
-        sw2 = g.blocks[n2["to"][0]]["t"]
-        if sw2["t"] == "switch":
-            brk = [x[1] for x in sw2["vals"] if g.blocks[x[1]]["t"]["t"] == "call" and g.blocks[x[1]]["t"].get("rn") == "from_residual"]
-            ph_ok = len(brk) == 1 and not (g.reachable(brk[0]) & (cb_blocks | {PI}))
-    chk.check(R3, ph_ok, "header error returns", "a callback is reachable after parse_header failed", W)
 
     R4 = chk.rule("R-PROTO-4", "Action::consume maps Continue->Ok(()), Stop->Err(ConsumerStopRequested), Error(e)->Err(ConsumerError(e)); "
                   "State::Complete is constructed at exactly one site, in parse_inst, on the path where the first word of an instruction "
